@@ -64,19 +64,25 @@ pub open spec fn valid_for(r: BddPtr, m: PM, id: int) -> bool {
     &&& forall|env: Env| #[trigger] tr(env) ==> (agrees(env, m) ==> ptr_sem(r, env) == csem_of(id, env))
     &&& decides_once(r)
     &&& forall|x: VarLabel| #[trigger] mentions(r, x) ==> !m.contains_key(x.0)
+    // only the false CONSTANT denotes false: any other diagram is true on some assignment that extends m
+    &&& (r is PtrFalse || exists|env: Env| #[trigger] tr(env) && agrees(env, m) && ptr_sem(r, env))
 }
 /// ... on the half of the assignments where v has value pol; h does not decide v either
 pub open spec fn half_valid(h: BddPtr, m0: PM, v: VarLabel, pol: bool, id: int) -> bool {
     &&& forall|env: Env| #[trigger] tr(env) ==> (agrees(env, m0) && env(v.0) == pol ==> ptr_sem(h, env) == csem_of(id, env))
     &&& decides_once(h)
     &&& forall|x: VarLabel| #[trigger] mentions(h, x) ==> !m0.contains_key(x.0) && x != v
+    &&& (h is PtrFalse || exists|env: Env| #[trigger] tr(env) && agrees(env, m0) && env(v.0) == pol && ptr_sem(h, env))
 }
+/// an assignment that extends a partial model
+pub open spec fn env_of(m: PM) -> Env { |x: u64| if m.contains_key(x) { m[x] } else { false } }
 /// the contract of conjoin_implied as one predicate (trigger for the branch lemma)
 #[verifier::opaque]
 pub open spec fn conj_post(r: BddPtr, nnf: BddPtr, lits: Seq<Literal>) -> bool {
     &&& forall|env: Env| #[trigger] tr(env) ==> ptr_sem(r, env) == (ptr_sem(nnf, env) && lits_hold(env, lits, lits.len() as int))
     &&& decides_once(r)
     &&& forall|x: VarLabel| #[trigger] mentions(r, x) ==> mentions(nnf, x) || lits_mention(lits, lits.len() as int, x)
+    &&& (nnf is PtrFalse ==> r is PtrFalse)
 }
 /// the contract of get_or_insert as one predicate (trigger for the combine lemma)
 #[verifier::opaque]
@@ -137,13 +143,20 @@ pub proof fn lemma_branch(id: int, m0: PM, lit: Literal, sat: bool, m2: PM, lits
         if mentions(sub, x) { assert(!m2.contains_key(x.0)); }
         else { lemma_lits_mention(lits, n, x); }
     }
+    // a witness for sub (it extends m2, so every implied literal holds) is a witness for high
+    if !(sub is PtrFalse) {
+        let w = choose|env: Env| #[trigger] tr(env) && agrees(env, m2) && ptr_sem(sub, env);
+        lemma_lits_hold_from_agree(w, lits, n, m2);
+        assert(tr(w) && agrees(w, m0) && w(v.0) == lit.pol && ptr_sem(high, w));
+    }
 }
 /// a SAT answer makes the true diagram valid for the pushed model
 pub proof fn lemma_true_valid(id: int, m0: PM, lit: Literal, m2: PM)
     requires decide_ok(id, m0, lit, true, m2),
     ensures valid_for(BddPtr::PtrTrue, m2, id),
 {
-    reveal(decide_ok);
+    reveal(decide_ok); tr_all();
+    assert(tr(env_of(m2)) && agrees(env_of(m2), m2) && ptr_sem(BddPtr::PtrTrue, env_of(m2)));
 }
 pub proof fn lemma_unsat_half(id: int, m0: PM, lit: Literal)
     requires decide_unsat(id, m0, lit),
@@ -157,13 +170,27 @@ pub proof fn lemma_combine_eq(id: int, m0: PM, v: VarLabel, low: BddPtr, high: B
     ensures valid_for(high, m0, id),
 {
     axiom_bddptr_eq();
+    if !(high is PtrFalse) {
+        let w = choose|env: Env| #[trigger] tr(env) && agrees(env, m0) && env(v.0) == true && ptr_sem(high, env);
+        assert(tr(w) && agrees(w, m0) && ptr_sem(high, w));
+    }
 }
 pub proof fn lemma_combine_node(id: int, m0: PM, v: VarLabel, low: BddPtr, high: BddPtr, n: BddNode, r: BddPtr)
     requires half_valid(high, m0, v, true, id), half_valid(low, m0, v, false, id), !m0.contains_key(v.0),
-        n.var == v, n.low == low, n.high == high, dnode_post(r, n),
+        n.var == v, n.low == low, n.high == high, dnode_post(r, n), !PartialEqSpec::eq_spec(&high, &low),
     ensures valid_for(r, m0, id),
 {
-    reveal(dnode_post);
+    reveal(dnode_post); axiom_bddptr_eq_equiv();
+    // the two branches are not the same pointer, so they are not both the false constant: one of them has a witness
+    if !(high is PtrFalse) {
+        let w = choose|env: Env| #[trigger] tr(env) && agrees(env, m0) && env(v.0) == true && ptr_sem(high, env);
+        assert(tr(w) && agrees(w, m0) && ptr_sem(r, w));
+    } else {
+        assert(!(low is PtrFalse));
+        let w = choose|env: Env| #[trigger] tr(env) && agrees(env, m0) && env(v.0) == false && ptr_sem(low, env);
+        assert(tr(w) && agrees(w, m0) && ptr_sem(r, w));
+    }
+    assert(is_node(r)) by { assert(mentions(r, n.var)); }
 }
 
 pub trait TopDownBuilder<'a> {
@@ -266,6 +293,8 @@ pub trait DecisionNNFBuilder<'a>: TopDownBuilder<'a> {
                 }
                 assert(sound_model(id, nv, sat.stack()[sat.stack().len() - 1]));
             }
+            // the true constant has a witness under any model
+            assert(tr(env_of(m0)) && agrees(env_of(m0), m0) && ptr_sem(BddPtr::PtrTrue, env_of(m0)));
             // Q0: a SAT answer makes `true` valid for the pushed model
             assert forall|lit: Literal, m2: PM| #[trigger] decide_ok(id, m0, lit, true, m2) implies valid_for(BddPtr::PtrTrue, m2, id) by { lemma_true_valid(id, m0, lit, m2); }
             // Q1: one branch
@@ -280,7 +309,7 @@ pub trait DecisionNNFBuilder<'a>: TopDownBuilder<'a> {
                 half_valid(high, m0, v, true, id) && half_valid(low, m0, v, false, id) && PartialEqSpec::eq_spec(&high, &low)
                 implies valid_for(high, m0, id) by { lemma_combine_eq(id, m0, v, low, high); }
             assert forall|v: VarLabel, low: BddPtr, high: BddPtr, n: BddNode, rr: BddPtr| #![trigger half_valid(high, m0, v, true, id), half_valid(low, m0, v, false, id), dnode_post(rr, n)]
-                half_valid(high, m0, v, true, id) && half_valid(low, m0, v, false, id) && !m0.contains_key(v.0) && n.var == v && n.low == low && n.high == high && dnode_post(rr, n)
+                half_valid(high, m0, v, true, id) && half_valid(low, m0, v, false, id) && !m0.contains_key(v.0) && n.var == v && n.low == low && n.high == high && dnode_post(rr, n) && !PartialEqSpec::eq_spec(&high, &low)
                 implies valid_for(rr, m0, id) by { lemma_combine_node(id, m0, v, low, high, n, rr); }
         }
 //%% end
@@ -299,6 +328,8 @@ pub trait DecisionNNFBuilder<'a>: TopDownBuilder<'a> {
             // the diagram has exactly the models of the formula (relative to the solver contract A-sat / A-reshash)
             forall|env: Env| #[trigger] tr(env) ==> ptr_sem(r, env) == csem_of(cnf.id_s(), env),
             decides_once(r),
+            // the false CONSTANT exactly when the formula is unsatisfiable
+            (r is PtrFalse) == (forall|env: Env| #[trigger] tr(env) ==> !csem_of(cnf.id_s(), env)),
 //%% @entry
         let ghost id = cnf.id_s();
         proof {
@@ -323,6 +354,9 @@ pub trait DecisionNNFBuilder<'a>: TopDownBuilder<'a> {
                 forall|x: VarLabel| #[trigger] mentions(r, x) ==> !sat.top().contains_key(x.0) || lits_mention(lits__v@, it.index@ as int, x),
                 exists|r0: BddPtr| valid_for(r0, sat.top(), id) && !(r0 is PtrFalse)
                     && forall|env: Env| #[trigger] tr(env) ==> ptr_sem(r, env) == (ptr_sem(r0, env) && lits_hold(env, lits__v@, it.index@ as int)),
+                // the formula is satisfiable (the diagram under the implied literals is not the false constant)
+                exists|env: Env| #[trigger] tr(env) && csem_of(id, env),
+                it.index@ > 0 ==> is_node(r),  !(r is PtrFalse),
 //%% @loopbody 1
             proof {
                 tr_all();
